@@ -70,7 +70,7 @@ Theorem C12_passes_exact :
        config_of c n pn =
        Some {| g_pass := pn;
                g_defs := n_defs n ++ p_defs p ++ concat (map m_defs ms);
-               g_paths := n_paths n ++ p_paths p ++ concat (map m_paths ms);
+               g_paths := base_paths n ++ p_paths p ++ concat (map m_paths ms);
                g_files := n_files n ++ p_files p ++ concat (map m_files ms);
                g_blocks := [] |}).
 Proof.
@@ -79,13 +79,15 @@ Proof.
 Qed.
 Print Assumptions C12_passes_exact.
 
+(* (base_paths n = all -I values in command-line order followed by all -isystem values in
+   command-line order: the order a compiler searches them) *)
 (* Modes: the default pass carries the command line's own lists plus exactly one
    block (the declared definitions, include paths and include files) per DISTINCT
    active mode that the compiler defines *)
 Theorem C12_modes_exact :
   forall c n,
     exists g, config_of c n "default" = Some g /\
-      g_defs g = n_defs n /\ g_paths g = n_paths n /\ g_files g = n_files n /\
+      g_defs g = n_defs n /\ g_paths g = base_paths n /\ g_files g = n_files n /\
       exists ms, NoDup ms /\
         (forall m, In m ms <-> In m (n_modes n) /\ exists md, aget m (c_modes c) = Some md) /\
         map Some (g_blocks g) = map (fun m => aget m (c_modes c)) ms.
@@ -123,7 +125,7 @@ Print Assumptions C12_append_only_lists.
    files and modes (their pass-selecting custom actions write _passes only) *)
 Theorem C12_builtins_append_only :
   forallb (fun nc => forallb (fun d => forallb (appendish d) (generic_rules ++ c_rules (snd nc)))
-                             [DDefs; DPaths; DFiles; DModes; DPasses]) builtin_table = true.
+                             [DDefs; DPaths; DSys; DFiles; DModes; DPasses]) builtin_table = true.
 Proof. vm_compute. reflexivity. Qed.
 Print Assumptions C12_builtins_append_only.
 
@@ -235,6 +237,19 @@ Theorem C12_builtins :
   pass_defs (cmd "clang++" ["-fsycl-is-device"]) = [("default", ["__SYCL_DEVICE_ONLY__"])].
 Proof. vm_compute. repeat split; reflexivity. Qed.
 Print Assumptions C12_builtins.
+
+(* What C12_implicit_is_appended does NOT give (code as it is after C11's repair "ArgumentError
+   is caught, the options recognised so far are kept"): because the implicit options are parsed
+   AFTER argv, a malformed argument anywhere in argv silently drops ALL implicit options.
+   "The implicit options of a compiler are always in effect" is refuted: nvcc with a trailing -I
+   loses -D__NVCC__ -D__CUDACC__ (only a "Could not parse all arguments" warning is logged). *)
+Theorem C12_implicit_survive_malformed_refuted :
+  exists argv,
+    pass_defs (cmd "nvcc" []) = [("sm_70", ["__NVCC__"; "__CUDACC__"; "__CUDA_ARCH__=700"]); ("default", ["__NVCC__"; "__CUDACC__"])] /\
+    pass_defs (cmd "nvcc" argv) = [("sm_70", ["A"; "__CUDA_ARCH__=700"]); ("default", ["A"])] /\
+    match cmd "nvcc" argv with inr (_, ev) => ev = ["W:partial"] | inl _ => False end.
+Proof. exists ["-DA"; "a.cu"; "-I"]. vm_compute. repeat split; reflexivity. Qed.
+Print Assumptions C12_implicit_survive_malformed_refuted.
 
 (* ... and every combination of the documented flags of the seven built-in names (plus common
    flags the definitions say nothing about) lies INSIDE the specification's scanner, so
